@@ -96,7 +96,7 @@ def reference(d, options, removed, not_c, renaming, table, valid):
 
 def mutate(rnd, d):
     d = copy.deepcopy(d)
-    kind = rnd.choice(['none', 'dropcat', 'nopass', 'badpass', 'badopt-active', 'badopt-filtered', 'badpass-filtered', 'shuffle', 'maxt', 'excl'])
+    kind = rnd.choice(['none', 'dropcat', 'nopass', 'badpass', 'badopt-active', 'badopt-filtered', 'badpass-filtered', 'shuffle', 'maxt', 'excl', 'empty-include', 'empty-exclude', 'dup-row'])
     cats = [c for c in ('first', 'main', 'last') if d.get(c)]
     if kind == 'dropcat':
         d.pop(rnd.choice(['first', 'main', 'last']), None)
@@ -122,6 +122,12 @@ def mutate(rnd, d):
             e['max-transforms'] = rnd.randint(0, 5)
         elif kind == 'excl':
             e['exclude'] = [rnd.choice(['slow', 'windows'])]
+        elif kind == 'empty-include':
+            e['include'] = []          # present but empty: can never intersect the active options
+        elif kind == 'empty-exclude':
+            e['exclude'] = []
+        elif kind == 'dup-row':
+            d[c].append(copy.deepcopy(e))   # the same pass twice: --remove-pass must drop both
     return kind, d
 
 
